@@ -13,8 +13,8 @@ import (
 func init() {
 	register(&Property{
 		Meta: PropMeta{
-			ID:    "C19",
-			Level: "other",
+			ID:          "C19",
+			Level:       "other",
 			Explanation: "Structural necessary conditions of 'declarations are read faithfully or rejected at setup', decided on the SSA of /repo for all paths: (NP) the no-panic prover over every function reachable from NewParser/NewNamedParser/AddGroup/AddCommand/AddOption, including the tag scanner; (ERRS) every error returned by the tag scanner, the struct scan, its handlers and the duplicate check is a typed constructor result of the documented ErrorTypes or a propagated such error, and no error result on the setup path is dropped (two allow-listed sites); Parser.internalError is stored only by NewParser; (KEYS) every tag key listed under 'Available field tags' in the package comment (parsed on every run) is read by a multiTag.Get/GetMany call, and every key read is documented or in a two-entry internal table; (MODEL) each field of the Option, Group, Command and Arg built from a declaration takes its value from the tag key the documentation names for it, multi-valued keys through GetMany, and Option.value / Option.field / Arg.value come from the same struct field index; (CHECKS) the short-name check counts characters, the boolean-default check is guarded by isBool() ∧ Default != nil and precedes registration, scanType cannot return nil without the duplicate check, the duplicate maps are keyed by the namespaced long name and the short rune over all nested groups, and a recorded duplicate error is never overwritten; (SETTABLE) every reflect.Value stored as Option.value or Arg.value by the scans is a field of an addressable struct guarded by the exported-field test; (TAGSCAN) in the tag scanner a backslash unconditionally skips the following byte, values accumulate by append in order and Get returns the last.",
 			NotDecided:  "that the hand-written tag scanner accepts exactly Go's conventional tag syntax (a language-equivalence question; only its escape skip, accumulation and panic-freedom are checked); options registered through AddOption (programmer-supplied reflect.Value — known finding).",
 			Trusted:     []string{"go/ssa lowering", "go/types", "reflect contracts", "the package comment of flags.go as the documentation of tag keys"},
